@@ -392,7 +392,42 @@ def coverage(prog, fn, st, target, shape):
     for n in walk_no_nested(fn.node):
         if isinstance(n, ast.Subscript) and isinstance(n.ctx, ast.Store) and ast.dump(n.value) == tdump:
             stores.append(n)
+    # a view handed to a project helper that fills its parameter completely (`out[:] = ...` / `out[...] = ...` at the top of its body)
+    # is a store of that view at the call; a buffer or view handed to anything else is filled we do not know where
+    escapes = []
+    for c in walk_no_nested(fn.node):
+        if not isinstance(c, ast.Call):
+            continue
+        for pos_, a in enumerate(c.args):
+            view = a if isinstance(a, ast.Subscript) and ast.dump(a.value) == tdump else None
+            whole = ast.dump(a) == tdump
+            if view is None and not whole:
+                continue
+            g = None
+            if isinstance(c.func, ast.Attribute) and isinstance(c.func.value, ast.Name) and fn.self_name and c.func.value.id == fn.self_name and fn.cls is not None:
+                g = fn.cls.lookup(c.func.attr)
+                params = g.params[1:] if g is not None and g.self_name else (g.params if g is not None else [])
+            else:
+                g = prog.functions.get(prog.resolve(fn.module, c.func) or '')
+                params = g.params if g is not None else []
+            filled = False
+            if g is not None and pos_ < len(params):
+                pn = params[pos_]
+                for hs in g.node.body:
+                    if isinstance(hs, ast.Assign) and len(hs.targets) == 1 and isinstance(hs.targets[0], ast.Subscript) and isinstance(hs.targets[0].value, ast.Name) \
+                            and hs.targets[0].value.id == pn:
+                        sl = hs.targets[0].slice
+                        if (isinstance(sl, ast.Slice) and sl.lower is None and sl.upper is None and sl.step is None) or (isinstance(sl, ast.Constant) and sl.value is Ellipsis):
+                            filled = True
+            if filled and view is not None:
+                stores.append(view)
+            elif filled and whole:
+                return 'covered', f'filled completely by {g.name}'
+            else:
+                escapes.append(c)
     if not stores:
+        if escapes:
+            return 'unknown', f'the buffer is handed to `{short(escapes[0], 50)}`; where it is filled is not followed'
         return 'uncovered', 'no element store at all'
     # per-axis analysis of each store
     per_store = []
